@@ -90,6 +90,20 @@ def ast_leg(chk, n, features=None, weights=None, tag="ast"):
 
 # ---------------------------------------------------------------------------------------------------------
 
+def reads_global(src, fname, name):
+    """does function `fname` of the source read `name` as a global (Python's own symbol table)?"""
+    import symtable
+    try:
+        top = symtable.symtable(src, "<src>", "exec")
+        for child in top.get_children():
+            if child.get_name() == fname:
+                sym = child.lookup(name)
+                return sym.is_global() and sym.is_referenced()
+    except Exception:
+        return False
+    return False
+
+
 def _norm_val(v):
     if isinstance(v, dict) and "exc" in v:
         return {"obj": v["exc"]}
@@ -223,7 +237,7 @@ def exec_leg(chk, n, probes=True, weights=None, tag="exec"):
         if not probes:
             continue
         # (c) the reference semantics' events against a real probe
-        cands = names + (["#value"] if not gen else []) + (["GLOB1"] if "GLOB1" in src else [])
+        cands = names + (["#value"] if not gen else []) + (["GLOB1"] if reads_global(src, "f", "GLOB1") else [])
         if not cands:
             continue
         focus = rng.choice(cands)
